@@ -2,7 +2,7 @@
     (model of index/eval.go, matchtree.go, indexdata.go, matchiter.go, hititer.go at /repo HEAD incl. the word fast-path
     fix commits 260937d d7a2c44 cae2348). *)
 From ZV Require Import Lib.Base Model.SearchCore Proofs.SearchCoreText Proofs.SearchCoreTree Proofs.SearchCoreLoop
-  Proofs.SearchCoreSelect Proofs.SearchCoreBuild Proofs.SearchCoreSimp Proofs.SearchCoreWord Proofs.SearchCoreTop.
+  Proofs.SearchCoreSelect Proofs.SearchCoreBuild Proofs.SearchCoreSimp Proofs.SearchCoreWord Proofs.SearchCoreTop Proofs.SearchCoreRf.
 From Coq Require Import ZifyBool ZifyN.
 
 (** 1. Verified trigram candidates are exactly the occurrences: for every list of texts, every pattern of >= 3 runes,
@@ -97,6 +97,20 @@ Theorem C01_search_exact_partial :
 Proof. intros. apply search_exact_checked; assumption. Qed.
 Print Assumptions C01_search_exact_partial.
 
+(** 9. FULL for the regexp-free fragment: for every corpus and every query built from substrings (content / file name,
+    case-sensitive or not), and / or / not, constants, branch, repository (table, set, ids, rawconfig, branches-repos),
+    language, file-name-set, type and boost nodes, Search without limits returns exactly the live documents on which
+    the query is true, in document order -- no obligation on any external component besides the two table hypotheses. *)
+Theorem C01_search_exact_regexp_free :
+  forall (re_match : N -> list N -> bool) (tolower : N -> N) (orbit : N -> list N) (c : corpus)
+         (freq : bool -> bool -> tri -> N) (q : Q),
+  agree tolower orbit ->
+  (forall fn cs g, freq fn cs g = 0%N -> post orbit (ix_tris c fn) cs g = []) ->
+  rfree q = true ->
+  search re_match tolower orbit c freq q = spec_search re_match tolower c q.
+Proof. intros. apply search_exact_rfree; assumption. Qed.
+Print Assumptions C01_search_exact_regexp_free.
+
 (** the frequency function used by the correspondence runner satisfies the frequency hypothesis *)
 Lemma count_freq_sound : forall orbit c fn cs g, count_freq orbit c fn cs g = 0%N -> post orbit (ix_tris c fn) cs g = [].
 Proof.
@@ -139,6 +153,7 @@ Definition ex_query : Q :=
 Definition ex_re (_ : N) (_ : list N) : bool := false.
 Example ex_hyp : re_okb ex_re alower aorbit ex_corpus (count_freq aorbit ex_corpus) (expand (simp ex_corpus ex_query)) = true.
 Proof. vm_compute. reflexivity. Qed.
+Example ex_rfree : rfree ex_query = true. Proof. reflexivity. Qed.
 Example ex_search : search ex_re alower aorbit ex_corpus (count_freq aorbit ex_corpus) ex_query = [0; 1; 4].
 Proof. vm_compute. reflexivity. Qed.
 Example ex_spec : spec_search ex_re alower ex_corpus ex_query = [0; 1; 4].
